@@ -24,10 +24,13 @@ type Case struct {
 	ProdPct int    `json:"production_duration_pct_of_block"`
 	Offsets []int  `json:"notification_offsets_pct_of_block"`
 	Storm   bool   `json:"notification_storm"`
+	// RatioPct (afteridle): idle interval in percent of the block interval (150, 250, 350: the idle ticks do not fall
+	// on multiples of the block interval)
+	RatioPct int `json:"idle_to_block_ratio_pct,omitempty"`
 }
 
 func (c Case) key() string {
-	return fmt.Sprintf("%s b%d r%d p%d %v s%v", c.Kind, c.BlockMs, c.Ratio, c.ProdPct, c.Offsets, c.Storm)
+	return fmt.Sprintf("%s b%d r%d/%d p%d %v s%v", c.Kind, c.BlockMs, c.Ratio, c.RatioPct, c.ProdPct, c.Offsets, c.Storm)
 }
 
 // recorder replaces the production function: it logs starts and ends and can hold a production in flight.
@@ -113,6 +116,9 @@ func startNode(ctx context.Context, c Case, rec *recorder) (*world.Node, chan st
 	lazy := time.Duration(c.Ratio) * block
 	if c.Kind == "inflight" {
 		lazy = time.Hour
+	}
+	if c.RatioPct > 0 {
+		lazy = block * time.Duration(c.RatioPct) / 100
 	}
 	n, err := world.NewNode(ctx, world.NodeOpts{Aggregator: true, Lazy: c.Kind != "normal", BlockTime: block, LazyInterval: lazy},
 		world.NewKeys("proposer"), world.NewMemDS(world.NewImage()), world.NewExecDouble(), world.NewSeqDouble(), world.NewDADouble(), nil)
@@ -249,6 +255,60 @@ func run(r *vk.Run, c Case) {
 				r.Count("isolated_late_blocks_not_judged", int64(late))
 			}
 		}
+	case "afteridle":
+		// a notification arrives shortly after (even offsets) or shortly before (odd offsets) a block that the idle timer
+		// produced: the block it is entitled to must still keep one block interval from that idle block
+		if !rec.waitStarts(1, lostWatchdog) || !rec.waitEnds(1, lostWatchdog) {
+			r.Inconclusive("first production did not finish")
+			return
+		}
+		idle := block * time.Duration(c.RatioPct) / 100
+		early, samples := 0, 0
+		for _, off := range c.Offsets {
+			have := rec.nStarts()
+			if off%2 == 1 {
+				// shortly before the idle tick that follows block `have`
+				rec.mu.Lock()
+				last := rec.starts[have-1]
+				rec.mu.Unlock()
+				time.Sleep(time.Until(last.Add(idle - block*time.Duration(off)/100)))
+				if rec.nStarts() != have {
+					continue
+				}
+				n.M.NotifyNewTransactions()
+				if !rec.waitStarts(have+2, lostWatchdog) {
+					r.Violation("on-demand", "a notification shortly before an idle tick was not followed by blocks within the watchdog", wit(""))
+					return
+				}
+			} else {
+				// wait for the idle block, then notify shortly after it started
+				if !rec.waitStarts(have+1, lostWatchdog) {
+					r.Inconclusive("no idle block within the watchdog")
+					return
+				}
+				time.Sleep(block * time.Duration(off) / 100)
+				n.M.NotifyNewTransactions()
+				if !rec.waitStarts(have+2, lostWatchdog) {
+					r.Violation("on-demand", "a notification shortly after an idle block was not followed by a block within the watchdog", wit(""))
+					return
+				}
+			}
+			rec.mu.Lock()
+			g1 := rec.starts[have].Sub(rec.starts[have-1])
+			g2 := rec.starts[have+1].Sub(rec.starts[have])
+			rec.mu.Unlock()
+			samples++
+			r.Hit("min-gap-around-idle-block")
+			if g1 < block*3/4 || g2 < block*3/4 {
+				early++
+			}
+			rec.waitEnds(have+2, lostWatchdog)
+		}
+		if early >= 3 {
+			r.Violation("min-gap", fmt.Sprintf("%d of %d times two blocks started less than 3/4 of a block interval apart around a block produced by the idle timer (block interval %v, idle interval %v)", early, samples, block, idle), wit(""))
+		} else if early > 0 {
+			r.Count("isolated_early_gaps_not_judged", int64(early))
+		}
 	case "stream":
 		// notifications keep arriving closer together than one block interval: each of them is entitled to a block
 		// within one block interval, so blocks must keep coming at the block cadence (the idle timer is far away)
@@ -328,7 +388,7 @@ func run(r *vk.Run, c Case) {
 // Run is the check entry point.
 func Run(r *vk.Run) {
 	world.Silence()
-	r.Rule = "the real AggregationLoop with the production function replaced by a recorder (the package's own test seam); scenarios: (inflight) lazy mode, idle interval 1 h, a production is held in flight, notifications arrive at swept offsets, after release a further production must start; (ondemand) lazy mode, block interval 20|50 ms, idle/block ratio 2|4|20, production duration 0|50|200 % of the block interval, 8 notifications at swept offsets: each must be followed by a block, gaps below half a block interval and latencies above three block intervals are judged only when they occur in >= 3 of 8 samples; (stream) notifications every 0.2-0.7 block intervals for 12 block intervals with the idle interval 40x away: blocks must keep coming; (idle) no notifications, ratio 1|2|4: block count over 24 idle intervals; (normal) normal mode with and without a notification storm: block count over 24 block intervals. non-trivial = at least one notification; distinct by parameter tuple"
+	r.Rule = "the real AggregationLoop with the production function replaced by a recorder (the package's own test seam); scenarios: (inflight) lazy mode, idle interval 1 h, a production is held in flight, notifications arrive at swept offsets, after release a further production must start; (ondemand) lazy mode, block interval 20|50 ms, idle/block ratio 2|4|20, production duration 0|50|200 % of the block interval, 8 notifications at swept offsets: each must be followed by a block, gaps below half a block interval and latencies above three block intervals are judged only when they occur in >= 3 of 8 samples; (stream) notifications every 0.2-0.7 block intervals for 12 block intervals with the idle interval 40x away: blocks must keep coming; (afteridle) lazy mode, block interval 30|40 ms, idle interval 1.5|2.5|3.5 block intervals, 8 notifications placed 4-33 % of a block interval after the start of an idle-timer block or before the next idle tick: the two gaps around that block must not fall below 3/4 of a block interval in >= 3 of 8 samples; (idle) no notifications, ratio 1|2|4: block count over 24 idle intervals; (normal) normal mode with and without a notification storm: block count over 24 block intervals. non-trivial = at least one notification; distinct by parameter tuple"
 	r.Assume("decisions rest on real time only where load can merely make the implementation look better (timers never fire early; a production that does not start within 15 s although the idle interval is 1 h was not going to start); isolated early/late samples are counted, not judged")
 	rng := r.Rand("cases")
 	var cases []Case
@@ -360,6 +420,15 @@ func Run(r *vk.Run) {
 					add(Case{Kind: "ondemand", BlockMs: b, Ratio: ratio, ProdPct: pp, Offsets: offs})
 				}
 			}
+		}
+	}
+	for k := 0; k < r.N(2, 16); k++ {
+		for _, rp := range []int{150, 250, 350} {
+			var offs []int
+			for j := 0; j < 8; j++ {
+				offs = append(offs, 4+rng.Intn(30))
+			}
+			add(Case{Kind: "afteridle", BlockMs: []int{30, 40}[k%2], RatioPct: rp, ProdPct: []int{0, 30}[k%2], Offsets: offs})
 		}
 	}
 	for k := 0; k < r.N(2, 24); k++ {
